@@ -521,3 +521,350 @@ Proof.
     apply IH. destruct Ra as [Ra1 Ra2]. exact (Cl _ _ Ra1 En _ _ Hin). }
   intros l Re. eapply X; eauto.
 Qed.
+
+(* ------------------------------------------------------------------ *)
+(* deepcopy copies the CONTENT: the tree below the copy equals the tree below
+   the original (aliasing / cycles included, through the memo table) *)
+Definition ent_rel (m : memo) (e e' : Z * cval) : Prop :=
+  fst e = fst e' /\ match snd e, snd e' with
+                    | VAtom a, VAtom a' => a = a'
+                    | VRef c, VRef c' => memo_get m c = Some c'
+                    | _, _ => False
+                    end.
+
+Definition mono (m m' : memo) : Prop := forall o n, memo_get m o = Some n -> memo_get m' o = Some n.
+
+Lemma ent_rel_mono : forall m m' e e', mono m m' -> ent_rel m e e' -> ent_rel m' e e'.
+Proof.
+  intros m m' [k v] [k' v'] M [A B]. split; [exact A|]. cbn in *.
+  destruct v, v'; auto.
+Qed.
+
+Lemma Forall2_ent_mono : forall m m' l l', mono m m' -> Forall2 (ent_rel m) l l' -> Forall2 (ent_rel m') l l'.
+Proof. intros m m' l l' M F. induction F; constructor; eauto using ent_rel_mono. Qed.
+
+Lemma Forall2_ent_keys : forall m l l', Forall2 (ent_rel m) l l' -> map fst l = map fst l'.
+Proof. intros m l l' F. induction F as [|x y l l' [A _] _ IH]; cbn; congruence. Qed.
+
+Definition knodup (st : cstore) : Prop := forall l nd, nth_error st l = Some nd -> NoDup (od_keys nd).
+
+Section DeepCopyContent.
+  Variable st0 : cstore.
+  Let n0 := length st0.
+  Hypothesis wf0 : forall k nd, nth_error st0 k = Some nd -> refs_ok (fun r => (r < n0)%nat) nd.
+  Hypothesis nd0 : knodup st0.
+
+  Definition img (st : cstore) (m : memo) (o n : nat) : Prop :=
+    exists nd nd', nth_error st0 o = Some nd /\ nth_error st n = Some nd' /\ Forall2 (ent_rel m) nd nd'.
+
+  Definition sim_inv (st : cstore) (m : memo) (pend : list nat) : Prop :=
+    forall o n, memo_get m o = Some n -> In n pend \/ img st m o n.
+
+  Definition prefix0 (st : cstore) : Prop := forall k, (k < n0)%nat -> nth_error st k = nth_error st0 k.
+
+  Definition frame (st st' : cstore) : Prop :=
+    (length st <= length st')%nat /\ forall k, (k < length st)%nat -> nth_error st' k = nth_error st k.
+
+  Lemma img_mono : forall st st' m m' o n,
+    frame st st' -> mono m m' -> img st m o n -> img st' m' o n.
+  Proof.
+    intros st st' m m' o n [_ F] M (nd & nd' & A & B & C). exists nd, nd'. split; [exact A|]. split.
+    - rewrite F; [exact B | apply nth_error_Some; congruence].
+    - eapply Forall2_ent_mono; eauto.
+  Qed.
+
+  Definition cp_sim (cp : copier) : Prop :=
+    forall st m l st' m' l' pend,
+      cp st m l = Ok (st', m', l') ->
+      dinv n0 st m -> prefix0 st -> (l < n0)%nat -> sim_inv st m pend ->
+      frame st st' /\ mono m m' /\ memo_get m' l = Some l'
+      /\ (forall o n, memo_get m' o = Some n -> memo_get m o = Some n \/ (length st <= n)%nat)
+      /\ sim_inv st' m' pend.
+
+  Lemma frame_prefix0 : forall st st', dinv n0 st [] \/ (n0 <= length st)%nat -> frame st st' -> prefix0 st -> prefix0 st'.
+  Proof.
+    intros st st' L [_ F] P k Hk. rewrite F; [apply P; exact Hk|]. destruct L as [[L _]|L]; lia.
+  Qed.
+
+  Lemma copy_entries_sim : forall cp, cp_sim cp -> cp_ok n0 cp ->
+    forall es pre st m acc st' m' acc' pend,
+      copy_entries cp es st m acc = Ok (st', m', acc') ->
+      dinv n0 st m -> prefix0 st -> sim_inv st m pend ->
+      refs_ok (fun r => (r < n0)%nat) es -> NoDup (map fst pre ++ map fst es) ->
+      Forall2 (ent_rel m) pre acc ->
+      frame st st' /\ mono m m'
+      /\ (forall o n, memo_get m' o = Some n -> memo_get m o = Some n \/ (length st <= n)%nat)
+      /\ sim_inv st' m' pend /\ Forall2 (ent_rel m') (pre ++ es) acc'.
+  Proof.
+    intros cp CS CO. induction es as [|[k v] r IH]; intros pre st m acc st' m' acc' pend E D P SI R N F.
+    - cbn in E. inversion E; subst. rewrite app_nil_r.
+      split; [split; auto|]. split; [intros o n X; exact X|]. split; [auto|]. split; assumption.
+    - assert (Kn : od_mem acc k = false).
+      { apply od_mem_false_keys. unfold od_keys. rewrite <- (Forall2_ent_keys _ _ _ F).
+        cbn in N. apply NoDup_remove_2 in N. intros X. apply N. apply in_or_app. left; exact X. }
+      assert (N' : NoDup (map fst (pre ++ [(k, v)]) ++ map fst r)).
+      { rewrite map_app. cbn. rewrite <- app_assoc. exact N. }
+      assert (R' : refs_ok (fun r0 => (r0 < n0)%nat) r) by (intros k0 r0 I; eapply R; right; exact I).
+      replace (pre ++ (k, v) :: r) with ((pre ++ [(k, v)]) ++ r) by (rewrite <- app_assoc; reflexivity).
+      destruct v as [a|c]; cbn [copy_entries] in E.
+      + rewrite od_set_notin in E by exact Kn.
+        eapply IH; eauto. apply Forall2_app; [exact F|]. constructor; [|constructor]. split; reflexivity.
+      + destruct (cp st m c) as [[[st1 m1] c']|e] eqn:Ec; [|discriminate].
+        assert (Hc : (c < n0)%nat) by (eapply R; left; reflexivity).
+        destruct (CS _ _ _ _ _ _ pend Ec D P Hc SI) as (F1 & M1 & G1 & NE1 & SI1).
+        destruct (CO _ _ _ _ _ _ Ec D) as (D1 & _ & _).
+        assert (P1 : prefix0 st1).
+        { intros k0 Hk0. destruct F1 as [_ F1]. rewrite F1; [apply P; exact Hk0|]. destruct D as [L _]. lia. }
+        rewrite od_set_notin in E by exact Kn.
+        assert (F' : Forall2 (ent_rel m1) (pre ++ [(k, VRef c)]) (acc ++ [(k, VRef c')])).
+        { apply Forall2_app; [eapply Forall2_ent_mono; eauto|]. constructor; [|constructor]. split; [reflexivity | exact G1]. }
+        destruct (IH _ _ _ _ _ _ _ pend E D1 P1 SI1 R' N' F') as (F2 & M2 & NE2 & SI2 & FF).
+        split; [|split; [|split; [|split; [exact SI2 | exact FF]]]].
+        * destruct F1 as [L1 F1]. destruct F2 as [L2 F2]. split; [lia|]. intros k0 Hk0. rewrite F2, F1; auto. lia.
+        * intros o n X. apply M2, M1, X.
+        * intros o n X. destruct (NE2 _ _ X) as [Y|Y]; [apply NE1; exact Y|]. right. destruct F1. lia.
+  Qed.
+
+  Lemma dcopy_sim : forall fuel, cp_sim (dcopy fuel).
+  Proof.
+    induction fuel as [|f IH]; intros st m l st' m' l' pend E D P Hl SI; [discriminate|].
+    cbn [dcopy] in E. destruct (memo_get m l) as [lm|] eqn:Em.
+    - inversion E; subst. split; [split; auto|]. split; [intros o n X; exact X|]. split; [exact Em|]. split; auto.
+    - rewrite (P _ Hl) in E. destruct (nth_error st0 l) as [nd|] eqn:En; [|discriminate].
+      destruct (copy_entries (dcopy f) nd (st ++ [[]]) ((l, length st) :: m) []) as [[[st2 m2] nd']|e] eqn:Ec;
+        [|discriminate].
+      inversion E; subst st' m' l'. clear E.
+      pose proof D as (DL & DM & DC).
+      set (l' := length st) in *. set (m1 := (l, l') :: m) in *.
+      assert (D1 : dinv n0 (st ++ [[]]) m1).
+      { split; [rewrite app_length; cbn; lia|]. split.
+        - intros o n X. cbn in X. rewrite app_length; cbn.
+          destruct (Nat.eqb l o); [inversion X; subst; unfold l'; lia|]. specialize (DM _ _ X). lia.
+        - intros k nd1 Hk X. rewrite nth_error_snoc in X. rewrite app_length; cbn.
+          destruct (Nat.eqb_spec k (length st)).
+          + inversion X; subst. intros k0 r [].
+          + eapply refs_ok_weaken; [|eapply DC; eauto]. intros r Hr; cbn beta in *; lia. }
+      assert (M01 : mono m m1).
+      { intros o n X. cbn. destruct (Nat.eqb_spec l o); [subst; congruence | exact X]. }
+      assert (Fr01 : frame st (st ++ [[]])).
+      { split; [rewrite app_length; cbn; lia|]. intros k Hk. apply nth_error_app1; exact Hk. }
+      assert (P1 : prefix0 (st ++ [[]])).
+      { intros k Hk. rewrite nth_error_app1 by lia. apply P; exact Hk. }
+      assert (SI1 : sim_inv (st ++ [[]]) m1 (l' :: pend)).
+      { intros o n X. cbn in X. destruct (Nat.eqb_spec l o).
+        - inversion X; subst. left; left; reflexivity.
+        - destruct (SI _ _ X) as [Y|Y]; [left; right; exact Y | right; eapply img_mono; eauto]. }
+      destruct (copy_entries_sim (dcopy f) IH (dcopy_ok f n0) nd [] _ _ _ _ _ _ (l' :: pend) Ec D1 P1 SI1
+                  (wf0 _ _ En) (nd0 _ _ En) (Forall2_nil _)) as ([L2 F2] & M2 & NE2 & SI2 & FF).
+      cbn [app] in FF. rewrite app_length in L2, F2; cbn in L2, F2.
+      assert (G2 : memo_get m2 l = Some l') by (apply M2; cbn; rewrite Nat.eqb_refl; reflexivity).
+      assert (Only : forall o, memo_get m2 o = Some l' -> o = l).
+      { intros o X. destruct (NE2 _ _ X) as [Y|Y]; [|rewrite app_length in Y; cbn in Y; unfold l' in Y; lia].
+        cbn in Y. destruct (Nat.eqb_spec l o); [auto|]. specialize (DM _ _ Y). unfold l' in DM; lia. }
+      split; [|split; [|split; [|split]]].
+      + split; [rewrite length_set_nth; lia|]. intros k Hk. rewrite nth_error_set_nth.
+        destruct (Nat.eqb_spec k l'); [unfold l' in *; lia|]. rewrite F2 by lia. apply nth_error_app1; exact Hk.
+      + intros o n X. apply M2, M01, X.
+      + exact G2.
+      + intros o n X. destruct (NE2 _ _ X) as [Y|Y]; [|right; rewrite app_length in Y; cbn in Y; lia].
+        cbn in Y. destruct (Nat.eqb_spec l o); [inversion Y; subst; right; unfold l'; lia | left; exact Y].
+      + intros o n X. destruct (Nat.eq_dec n l') as [->|NE].
+        * right. rewrite (Only _ X). exists nd, nd'. split; [exact En|]. split; [|exact FF].
+          rewrite nth_error_set_nth, Nat.eqb_refl.
+          destruct (nth_error st2 l') eqn:Z; [reflexivity|]. apply nth_error_None in Z. unfold l' in Z. lia.
+        * destruct (SI2 _ _ X) as [[Y|Y]|Y]; [congruence | left; exact Y|].
+          right. destruct Y as (a & b & A & B & C). exists a, b. split; [exact A|]. split; [|exact C].
+          rewrite nth_error_set_nth. destruct (Nat.eqb_spec n l'); [contradiction | exact B].
+  Qed.
+
+  Lemma tree_of_img : forall st' m',
+    (forall o n, memo_get m' o = Some n -> img st' m' o n) ->
+    forall f o n, memo_get m' o = Some n -> tree_of f st' (VRef n) = tree_of f st0 (VRef o).
+  Proof.
+    intros st' m' A. induction f as [|f IH]; intros o n X; [reflexivity|].
+    destruct (A _ _ X) as (nd & nd' & E0 & E1 & F). cbn [tree_of]. rewrite E0, E1.
+    assert (Q : mapM (fun kv => match tree_of f st' (snd kv) with Ok t => Ok (fst kv, t) | Err e => Err e end) nd'
+              = mapM (fun kv => match tree_of f st0 (snd kv) with Ok t => Ok (fst kv, t) | Err e => Err e end) nd).
+    { clear E0 E1. induction F as [|[k v] [k' v'] t t' [R1 R2] _ IHF]; [reflexivity|]. cbn in R1, R2. subst k'.
+      cbn [mapM bind fst snd]. rewrite IHF.
+      assert (Z : tree_of f st' v' = tree_of f st0 v).
+      { destruct v as [a|c], v' as [a'|c']; try contradiction; [subst; destruct f; reflexivity | apply IH; exact R2]. }
+      rewrite Z. reflexivity. }
+    rewrite Q. reflexivity.
+  Qed.
+
+  Theorem dcopy_content_0 : forall fuel b st' m' r,
+    (b < n0)%nat -> dcopy fuel st0 [] b = Ok (st', m', r) ->
+    forall f, tree_of f st' (VRef r) = tree_of f st0 (VRef b).
+  Proof.
+    intros fuel b st' m' r Hb E f.
+    assert (D : dinv n0 st0 []).
+    { split; [unfold n0; lia|]. split; [intros o n X; discriminate|].
+      intros k nd Hk X. exfalso. assert (k < length st0)%nat by (apply nth_error_Some; congruence). unfold n0 in Hk. lia. }
+    assert (SI : sim_inv st0 [] []) by (intros o n X; discriminate).
+    destruct (dcopy_sim fuel _ _ _ _ _ _ [] E D (fun k _ => eq_refl) Hb SI) as (_ & _ & G & _ & SI').
+    apply (tree_of_img st' m'); [|exact G].
+    intros o n X. destruct (SI' _ _ X) as [[]|Y]; exact Y.
+  Qed.
+End DeepCopyContent.
+
+Theorem dcopy_content : forall st fuel b st' m' r,
+  (forall k nd, nth_error st k = Some nd -> refs_ok (fun r => (r < length st)%nat) nd) ->
+  knodup st -> (b < length st)%nat ->
+  dcopy fuel st [] b = Ok (st', m', r) ->
+  forall f, tree_of f st' (VRef r) = tree_of f st (VRef b).
+Proof. intros st fuel b st' m' r W K Hb E f. eapply dcopy_content_0; eauto. Qed.
+
+(* ------------------------------------------------------------------ *)
+(* dictionaries keep unique keys in every reachable store *)
+Lemma knodup_snoc : forall st nd, knodup st -> NoDup (od_keys nd) -> knodup (st ++ [nd]).
+Proof.
+  intros st nd K N l nd0 X. rewrite nth_error_snoc in X.
+  destruct (Nat.eqb l (length st)); [inversion X; subst; exact N | eapply K; eauto].
+Qed.
+
+Lemma knodup_set_nth : forall st l nd, knodup st -> NoDup (od_keys nd) -> knodup (set_nth st l nd).
+Proof.
+  intros st l nd K N k nd0 X. rewrite nth_error_set_nth in X. destruct (Nat.eqb k l).
+  - destruct (nth_error st l); inversion X; subst; exact N.
+  - eapply K; eauto.
+Qed.
+
+Definition cp_kn (cp : copier) : Prop :=
+  forall st m l st' m' l', cp st m l = Ok (st', m', l') -> knodup st -> knodup st'.
+
+Lemma copy_entries_kn : forall cp, cp_kn cp -> forall es st m acc st' m' acc',
+  copy_entries cp es st m acc = Ok (st', m', acc') -> knodup st -> NoDup (od_keys acc) ->
+  knodup st' /\ NoDup (od_keys acc').
+Proof.
+  intros cp CK. induction es as [|[k [a|c]] r IH]; intros st m acc st' m' acc' E K N; cbn in E.
+  - inversion E; subst; auto.
+  - eapply IH; eauto. apply od_keys_set_nodup; exact N.
+  - destruct (cp st m c) as [[[st1 m1] c']|e] eqn:Ec; [|discriminate].
+    eapply IH; eauto. apply od_keys_set_nodup; exact N.
+Qed.
+
+Lemma dcopy_kn : forall fuel, cp_kn (dcopy fuel).
+Proof.
+  induction fuel as [|f IH]; intros st m l st' m' l' E K; [discriminate|].
+  cbn [dcopy] in E. destruct (memo_get m l); [inversion E; subst; exact K|].
+  destruct (nth_error st l) as [nd|]; [|discriminate].
+  destruct (copy_entries (dcopy f) nd (st ++ [[]]) ((l, length st) :: m) []) as [[[st2 m2] nd']|e] eqn:Ec; [|discriminate].
+  inversion E; subst. destruct (copy_entries_kn _ IH _ _ _ _ _ _ _ Ec) as [K2 N2].
+  - apply knodup_snoc; [exact K | constructor].
+  - constructor.
+  - apply knodup_set_nth; assumption.
+Qed.
+
+Lemma set_path_kn : forall st r path k v st' x, knodup st -> set_path st r path k v = (st', x) -> knodup st'.
+Proof.
+  intros st r path k v st' x K E. unfold set_path in E.
+  destruct (walk st r path) as [l|e]; [|inversion E; subst; exact K].
+  destruct (nth_error st l) as [nd|] eqn:En; [|inversion E; subst; exact K].
+  inversion E; subst. apply knodup_set_nth; [exact K|]. apply od_keys_set_nodup. eapply K; eauto.
+Qed.
+
+Lemma set_unit_kn : forall st r key u st' x, knodup st -> set_unit st r key u = (st', x) -> knodup st'.
+Proof.
+  intros st r key [[[|] v]|] st' x K E; cbn in E; try (inversion E; subst; exact K).
+  eapply set_path_kn; eauto.
+Qed.
+
+Lemma cfg_apply_kn : forall st r m st' x, knodup st -> cfg_apply st r m = (st', x) -> knodup st'.
+Proof.
+  intros st r m st' x K E. destruct m as [| |f|a e l t|n|absv|path k v]; cbn [cfg_apply] in E;
+    try (eapply set_path_kn; eauto; fail).
+  - destruct (set_unit st r k_angle (umap cfg_units_angle_val a)) as [st1 [u1|e1]] eqn:E1;
+      pose proof (set_unit_kn _ _ _ _ _ _ K E1) as K1; [|inversion E; subst; exact K1].
+    destruct (set_unit st1 r k_energy (umap cfg_units_energy_val e)) as [st2 [u2|e2]] eqn:E2;
+      pose proof (set_unit_kn _ _ _ _ _ _ K1 E2) as K2; [|inversion E; subst; exact K2].
+    destruct (set_unit st2 r k_length (umap cfg_units_length_val l)) as [st3 [u3|e3]] eqn:E3;
+      pose proof (set_unit_kn _ _ _ _ _ _ K2 E3) as K3; [|inversion E; subst; exact K3].
+    eapply set_unit_kn; eauto.
+  - destruct (get_path st r [k_project] k_working_directory); [|inversion E; subst; exact K].
+    eapply set_path_kn; eauto.
+Qed.
+
+Lemma cfg_new_kn : forall fuel st b st' root, knodup st -> cfg_new fuel st b = Ok (st', root) -> knodup st'.
+Proof.
+  intros fuel st b st' root K E. unfold cfg_new in E.
+  destruct (dcopy fuel st [] b) as [[[st1 m1] c]|e] eqn:Ed; [|discriminate].
+  destruct (nth_error st1 c); [|discriminate]. inversion E; subst.
+  apply knodup_snoc; [eapply dcopy_kn; eauto | apply od_of_nodup].
+Qed.
+
+Lemma cfg_from_dict_kn : forall fuel st b u st' root, knodup st -> cfg_from_dict fuel st b u = Ok (st', root) -> knodup st'.
+Proof.
+  intros fuel st b u st' root K E. unfold cfg_from_dict in E.
+  destruct (cfg_new fuel st b) as [[st1 r1]|e] eqn:En; [|discriminate].
+  destruct (dcopy fuel st1 [] u) as [[[st2 m2] u']|e] eqn:Ed; [|discriminate].
+  destruct (nth_error st2 u') as [und|]; [|discriminate].
+  destruct (nth_error st2 r1) as [rnd|] eqn:Er; [|discriminate]. inversion E; subst.
+  assert (K2 : knodup st2) by (eapply dcopy_kn; eauto; eapply cfg_new_kn; eauto).
+  apply knodup_set_nth; [exact K2|]. apply od_update_nodup. eapply K2; eauto.
+Qed.
+
+Lemma wstep_kn : forall fuel w o, knodup (wst w) -> knodup (wst (fst (wstep fuel w o))).
+Proof.
+  intros fuel [st users insts] o K. cbn [wst] in K.
+  destruct o as [|u path k v|u path k u2| |u|i m]; unfold wstep; cbn [wst wusers winsts].
+  - cbn. apply knodup_snoc; [exact K | constructor].
+  - destruct (nth_error users u); [|exact K].
+    destruct (set_path st n path k (VAtom v)) as [st' x] eqn:E. cbn. eapply set_path_kn; eauto.
+  - destruct (nth_error users u); [|exact K]. destruct (nth_error users u2); [|exact K].
+    destruct (set_path st n path k (VRef n0)) as [st' x] eqn:E. cbn. eapply set_path_kn; eauto.
+  - destruct (nth_error users 0); [|exact K].
+    destruct (cfg_new fuel st n) as [[st' root]|e] eqn:E; [|exact K]. cbn. eapply cfg_new_kn; eauto.
+  - destruct (nth_error users 0); [|exact K]. destruct (nth_error users u); [|exact K].
+    destruct (cfg_from_dict fuel st n n0) as [[st' root]|e] eqn:E; [|exact K]. cbn. eapply cfg_from_dict_kn; eauto.
+  - destruct (nth_error insts i); [|exact K].
+    destruct (cfg_apply st n m) as [st' x] eqn:E. cbn. eapply cfg_apply_kn; eauto.
+Qed.
+
+Lemma wrun_kn : forall fuel ops w, knodup (wst w) -> knodup (wst (wrun fuel w ops)).
+Proof.
+  intros fuel. induction ops as [|o t IH]; intros w K; [exact K|]. cbn. apply IH. apply wstep_kn; exact K.
+Qed.
+
+(* Config(): the new instance has the content of the base configuration *)
+Lemma cfg_new_tree : forall fuel st b st' root,
+  sinv st (fun _ => 0%nat) -> knodup st -> (b < length st)%nat ->
+  cfg_new fuel st b = Ok (st', root) ->
+  forall f, tree_of f st' (VRef root) = tree_of f st (VRef b).
+Proof.
+  intros fuel st b st' root S K Hb E f. unfold cfg_new in E.
+  destruct (dcopy fuel st [] b) as [[[st1 m1] c]|e] eqn:Ed; [|discriminate].
+  destruct (nth_error st1 c) as [nd|] eqn:En; [|discriminate]. inversion E; subst st' root. clear E.
+  assert (W : forall k nd0, nth_error st k = Some nd0 -> refs_ok (fun r => (r < length st)%nat) nd0).
+  { intros k nd0 X kk r I. destruct (S _ _ X _ _ I); assumption. }
+  rewrite <- (dcopy_content st fuel b st1 m1 c W K Hb Ed f).
+  destruct (dcopy_sinv fuel st (fun _ => 0%nat) 0%nat b st1 m1 c S (fun _ _ => eq_refl) Ed) as (S1 & _ & _).
+  assert (K1 : knodup st1) by (eapply dcopy_kn; eauto).
+  destruct f as [|f]; [reflexivity|]. cbn [tree_of].
+  rewrite nth_error_app2, Nat.sub_diag by lia. cbn [nth_error]. rewrite En.
+  rewrite (od_of_nodup_id nd) by (apply (K1 _ _ En)).
+  erewrite mapM_ext_in; [reflexivity|]. intros [k v] Hin. cbn [fst snd].
+  destruct v as [a|r]; [destruct f; reflexivity|].
+  destruct (S1 _ _ En _ _ Hin) as [Hr _].
+  rewrite (tree_frame st1 (st1 ++ [nd]) (fun _ => 0%nat) 0%nat S1); auto.
+  intros l Hl _. apply nth_error_app1; exact Hl.
+Qed.
+
+Theorem new_config_is_base : forall fuel ops w',
+  let w := wrun fuel w0 ops in
+  wstep fuel w WNew = (w', Ok tt) ->
+  exists base root,
+    nth_error (wusers w) 0 = Some base /\ winsts w' = winsts w ++ [root] /\ wusers w' = wusers w
+    /\ forall f, tree_of f (wst w') (VRef root) = tree_of f (wst w) (VRef base).
+Proof.
+  intros fuel ops w' w E.
+  destruct (wrun_inv fuel ops w0 _ winv_w0) as (col & Sv & U & I). fold w in Sv, U, I.
+  assert (K : knodup (wst w)) by (apply wrun_kn; intros l nd X; destruct l; discriminate).
+  unfold wstep in E. destruct (nth_error (wusers w) 0) as [base|] eqn:Eb; [|inversion E].
+  destruct (cfg_new fuel (wst w) base) as [[st' root]|e] eqn:En; [|inversion E].
+  inversion E; subst w'. clear E. exists base, root. cbn [winsts wusers wst].
+  split; [reflexivity|]. split; [reflexivity|]. split; [reflexivity|].
+  destruct (U _ _ Eb) as [Hb _].
+  apply (cfg_new_tree fuel (wst w) base st' root); auto.
+  intros l nd X k r Hin. destruct (Sv _ _ X _ _ Hin). split; [assumption | reflexivity].
+Qed.
